@@ -58,6 +58,8 @@ MODELS = {
     "hard_swish": lambda: nets.build(H(I8, ["hard_swish", "tanh"]), 0),
     "branchy": lambda: nets.build(H(([1, 16, 16, 8], "int8"), ["conv3x3", "branch_npu", "conv5x5_c24", "concat", "conv3x3", "add_res"]), 0),
     "softmax": lambda: nets.build(H(([1, 8, 8, 8], "int8"), ["softmax"]), 0),
+    # two third-party custom operators with different custom codes (the operator-code table has two entries of one operator type) next to an NPU part
+    "two_customs": lambda: nets.build(H(([1, 8, 8, 8], "int8"), ["cpu_custom", "cpu_custom_opt", "conv3x3"]), 0),
     # two networks whose first heuristic allocation is not optimal: the hill-climb search (random swaps) really runs
     "hc_search_a": lambda: nets.build(H(([1, 16, 16, 8], "int8"), ["concat", "conv5x5_c24", "conv5x5_c24"]), 0),
     # a network whose schedule depends on the arena cache size (used with two --config files that disagree on it)
@@ -334,7 +336,7 @@ def run(ctx):
                 specs, a, b, perturb), dict(alloc=[list(x) for x in specs]))
     # fresh interpreters: hash seeds and heap layouts
     seeds = [(0, 0), (1, 0), (2, 37), (7, 0)] if quick else [(s, j) for s in range(8) for j in (0, 37)]
-    fresh_events = [ev for ev in events if ev[1] == "main" and ev[2] == "ethos-u65-256"] + [(m, "convert_bytes", None) for m in ("dup_names", "branchy")] + \
+    fresh_events = [ev for ev in events if ev[1] == "main" and ev[2] == "ethos-u65-256"] + [(m, "convert_bytes", None) for m in ("dup_names", "branchy", "two_customs")] + \
         [ev for ev in events if ev[1] == "main2cfg"]
     if quick:
         seeds = seeds + [(3, 0), (8, 0)]
